@@ -163,6 +163,12 @@ func main() {
 		T(p(-3000, -3000, -3000), p(-3001, -3000, -3000), p(-3000, -3002, -3000)),
 	}
 	l3 := lists(menu3, vlib.Pick(c, 3, 5))
+	// corners that differ as float64 and are one float32 (round 8): 0.3 and 0.1+0.2, 1e6 and 1e6+1e-9, 0 and 1e-50 -
+	// de-duplication is on the converted value, so they share a vertex, within one triangle and across triangles
+	l3 = append(l3,
+		[]*sdf.Triangle3{T(p(0.3, 7, 0), p(0.1+0.2, 7, 1e-50), p(0.3, 8, 0))},
+		[]*sdf.Triangle3{T(p(0.3, 0, 0), p(1, 0, 0), p(0, 1, 0)), T(p(0.1+0.2, 0, 0), p(0, 1, 0), p(0, 0, 1))},
+		[]*sdf.Triangle3{T(p(0, 0, 0), p(1, 0, 0), p(0, 1, 0)), T(p(1+1e-12, 1e-50, 0), p(0, 1, 0), p(0, 0, 1)), T(p(1e6, 0, 0), p(1e6+1e-9, 1, 0), p(1e6+1e-9, 0, 0))})
 	chunk3 := map[int][]int{}
 	for pi, pat := range chunkPatterns {
 		for _, n := range []int{135, 390, 700} {
@@ -267,6 +273,13 @@ func main() {
 		L(1e-10, 2e-10, 3e-10, -1e-10), // a drawing at 1e-10 scale
 	}
 	l2 := lists(menu2, vlib.Pick(c, 3, 5))
+	// drawings whose extent is enormous against their detail (round 8): the flipped Y of a point near the top edge
+	// is a small number and must come out at two decimals, however far away the minimum corner is
+	l2 = append(l2,
+		[]*sdf.Line2{L(0, -1e15, 1, 0.3), L(0.25, 0.1, 0.5, 0.2)},
+		[]*sdf.Line2{L(0.25, 0.1, 0.5, 0.2), L(0, -3e13, 1, 0.3), L(0.75, 0.3, 0.125, 0.05)},
+		[]*sdf.Line2{L(-1e13, 0, 0.5, 0.25), L(0.125, 0.1, 0.25, 0.3)},
+		[]*sdf.Line2{L(0, 0, 1e15, 1e15), L(1e15-0.5, 1e15-0.25, 1e15, 1e15-1)})
 	chunk2 := map[int][]int{}
 	for pi, pat := range chunkPatterns {
 		for _, n := range []int{135, 390, 700} {
@@ -374,7 +387,7 @@ func main() {
 		var wv, hv float64
 		fmt.Sscanf(doc.Width, "%f", &wv)
 		fmt.Sscanf(doc.Height, "%f", &hv)
-		if math.Abs(wv-(mx.X-mn.X)) > 0.0050001 || math.Abs(hv-(mx.Y-mn.Y)) > 0.0050001 {
+		if math.Abs(wv-(mx.X-mn.X)) > 0.0050001+1e-15*(mx.X-mn.X) || math.Abs(hv-(mx.Y-mn.Y)) > 0.0050001+1e-15*(mx.Y-mn.Y) {
 			c.Violation("svg|canvas-not-extent|"+class, fmt.Sprintf("canvas %s x %s, drawing extent %g x %g", doc.Width, doc.Height, mx.X-mn.X, mx.Y-mn.Y), desc)
 			return
 		}
@@ -383,7 +396,8 @@ func main() {
 			w := [4]float64{l[0].X - mn.X, mx.Y - l[0].Y, l[1].X - mn.X, mx.Y - l[1].Y}
 			gg := [4]float64{g.X1, g.Y1, g.X2, g.Y2}
 			for a := range w {
-				if math.Abs(gg[a]-w[a]) > 0.0050001 {
+				// half a unit of the second decimal plus one unit in the last place of the expected number
+				if math.Abs(gg[a]-w[a]) > 0.0050001+(math.Nextafter(math.Abs(w[a]), math.Inf(1))-math.Abs(w[a])) {
 					c.Violation("svg|line-coordinates|"+class, fmt.Sprintf("<line> %d is %v, expected %v (origin shift to the minimum corner, y flipped)", k, gg, w), desc)
 					return
 				}
